@@ -4,7 +4,7 @@
    of coq/C04/Spec.v.  Proofs are in coq/C04/Proofs*.v; nothing here but statements.
    Every theorem is for ALL configurations (any number and kind of processors), all start options and
    ALL sequences of operations (incl. operations after End and further Ends). *)
-From V Require Import C04.Glue C04.ProofsMap C04.ProofsStep C04.ProofsMeets C04.ProofsHeap C04.ProofsProps.
+From V Require Import C04.Glue C04.ProofsMap C04.ProofsStep C04.ProofsMeets C04.ProofsHeap C04.ProofsProps C04.ProofsWire.
 Local Open Scope Z_scope.
 
 (* --- sentence 1: what each configured processor's exporter receives.  The whole final state of a case:
@@ -158,3 +158,13 @@ Theorem run_model_is_the_span_machine : forall (l : list tok) (c : case), parse_
                           (w_got (run1 (map_cfg conv (cs_cfg c)) (map_start conv (cs_start c)) (conv_case_ops (cs_ops c)))).
 Proof. exact run_model_never_faults. Qed.
 Print Assumptions run_model_is_the_span_machine.
+
+(* the same for the two extracted entry points as ./check composes them: an observation printed by the model
+   parses back to itself (for every observation), and [run_spec] finds no failed clause in the model's output *)
+Theorem observation_print_parse : forall (q : list bool) (got : list (list sdata)), parse_obs (print_obs q got) = Some (q, got).
+Proof. exact parse_print_obs. Qed.
+Print Assumptions observation_print_parse.
+
+Theorem model_meets_spec_wire : forall (l : list tok) (c : case), parse_case l = Some c -> run_spec l (run_model l) = [].
+Proof. exact model_meets_spec_wire_lemma. Qed.
+Print Assumptions model_meets_spec_wire.
